@@ -276,6 +276,25 @@ def alphabet(world, amounts):
             c.last = {"side": "withdraw"}
             return m.withdraw(m.balance - Decimal("0.02"))
         out.append(Op("withdraw[leave 0.02]", wd, True, "withdraw"))
+
+        # cash a hair below / above what two C1 contracts cost at the market (premium + fee): the order is unaffordable / affordable, and the hair stays
+        def leave(frac):
+            def f(c):
+                rf = ref_fill(c.model, "C1", "buy", Decimal(2), ("market",), world.marks.get("C1", Decimal(0))) if c.model else None
+                if rf is None:
+                    raise AssertionError("no fillable two-contract order in this book")  # counted as a refused event, changes nothing
+                fills, n = rf
+                prem = sum((p * s_ for p, s_, _ in fills), Fraction(0))
+                cost = prem + r6(min(Fraction(3, 10000) * n, Fraction(1, 8) * prem))
+                target = (Decimal(cost.numerator) / Decimal(cost.denominator)) * frac
+                c.last = {"side": "withdraw-to", "target": target}
+                if m.balance <= target:
+                    raise AssertionError("cash already below the target")
+                return m.withdraw(m.balance - target)
+            return f
+        if not m.positions:  # offered before the first trade only (what matters is the order that follows)
+            out.append(Op("withdraw[to cost of 2 C1, -5e-6]", leave(Decimal("0.999995")), True, "withdraw"))
+            out.append(Op("withdraw[to cost of 2 C1, +5e-6]", leave(Decimal("1.000005")), True, "withdraw"))
         return out
     return ops
 
@@ -308,6 +327,8 @@ class Oracle:
             md["cash"] += Fraction(1, 4)
         elif side == "withdraw" and out.ok:
             md["cash"] = Fraction(2, 100)
+        elif side == "withdraw-to" and out.ok:
+            md["cash"] = F(info["target"])
         elif side in ("buy", "sell"):
             ins, amt, mode = info["ins"], info["amt"], info["mode"]
             mark = self.world.marks.get(ins, Decimal(0))
